@@ -152,6 +152,7 @@ class fibonacci_heap
         child = min_node->child;
         while (child != NULL && child->parent != NULL)
         {
+            TAPKEE_VERIF_TICK("fibonacci_heap:extract_min");
             next_child = child->right;
 
             // delete current child from childs list
@@ -302,6 +303,7 @@ class fibonacci_heap
 
         do
         {
+            TAPKEE_VERIF_TICK("fibonacci_heap:consolidate");
             x = w;
             d = x->rank;
             w = w->right;
@@ -410,6 +412,7 @@ class fibonacci_heap
     {
         fibonacci_heap_node* temp;
 
+        TAPKEE_VERIF_TICK("fibonacci_heap:cascading_cut");
         temp = tree->parent;
         if (temp != NULL)
         {
